@@ -123,6 +123,9 @@ PPrimary(ts, p) ==
     [] t.t = "log"  -> Res([k |-> "log", v |-> (t.n = 1)], p + 1, FALSE)
     [] t.t = "lp"   -> LET r == PEquiv(ts, p + 1) IN
                        IF IsBad(r) \/ Tok(ts, r.p).t # "rp" THEN Bad(ts) ELSE Res(Un("par", r.e), r.p + 1, r.ext)
+    \* C logical negation (token ".cnot." from the C lexer): a unary operator of primary rank, may be repeated
+    [] t.t = "op" /\ t.s = ".cnot." -> LET r == PPrimary(ts, p + 1) IN
+                                       IF IsBad(r) THEN r ELSE Res(Un("not", r.e), r.p, r.ext)
     [] t.t = "id"   -> IF Tok(ts, p + 1).t = "lp"
                        THEN PArgs(ts, p + 2, [k |-> "call", f |-> t.s, c |-> <<>>])
                        ELSE Res([k |-> "var", name |-> t.s], p + 1, FALSE)
